@@ -143,7 +143,7 @@ func (c *Ctx) checkTailCallShape() {
 }
 
 func checkC09(c *Ctx) {
-	c.explainf("C09 decides, for all function bodies by induction over the generator's own code: a sub-form compiled with the tail flag possibly set (and able to emit the tail jump) is followed in its generator only by scope removal, return, or a jump to the end of the sequence; the tail self-call is `arguments (flag cleared), RemoveScope × open scopes, PrepareCall, RemoveScope, Goto 0` with no call instruction, selected only for a self-call under the tail flag; the generator's scope counter equals the number of open non-function scopes wherever a sub-form, break or continue is compiled, and every scope opened by a form is closed; compiled functions open their function scope at instruction 0. The emission sequences are obtained by abstract interpretation of the generator's Go code (no program is run). It does not decide memory at depth or equality with an unoptimised run.")
+	c.explainf("C09 decides, for all function bodies by induction over the generator's own code: a sub-form compiled with the tail flag possibly set (and able to emit the tail jump) is followed in its generator only by scope removal, return, or a jump to the end of the sequence; the tail self-call is `arguments (flag cleared), RemoveScope × open scopes, PrepareCall, RemoveScope, Goto 0` with no call instruction, selected only for a self-call under the tail flag; the generator's scope counter equals the number of open non-function scopes wherever a sub-form, break or continue is compiled, and every scope opened by a form is closed; compiled functions open their function scope at instruction 0. The emission sequences are obtained by abstract interpretation of the generator's Go code (no program is run). The jump is taken only when the name resolves to the running function (C09-SELF), PrepareCall is told exactly the length of the jump sequence, and every argument routine of CallFunction also runs before the jump (C09-ARITY). It does not decide memory at depth or equality with an unoptimised run.")
 	n := c.esReport("ES-T", "ES-S", "ES-MODEL")
 	c.note("emission_templates", len(c.es.templates))
 	c.note("es_obligations", n)
@@ -349,7 +349,7 @@ func (c *Ctx) checkRunBrackets() {
 }
 
 func checkC02(c *Ctx) {
-	c.explainf("C02 decides well-formedness of compiled control flow and evaluation order for all programs, by induction over the generator: every relative jump and branch offset, and the break/continue offsets of loops, land exactly on a boundary between the pieces of the emitted sequence (offsets are computed as linear forms over the unknown lengths of the sub-forms; no program is run); each form leaves exactly one value and statements are separated by one pop, on every control path; tail jumps appear only in tail position; every instruction advances or sets the program counter exactly once on success; a call evaluates the callee, then resolves it, then marshals arguments in ascending order pushing each once, then calls; variadic packing rejects too few arguments and pushes exactly one rest value. It does not decide values, truthiness, or that a jump lands on the intended boundary among several valid ones.")
+	c.explainf("C02 decides well-formedness of compiled control flow and evaluation order for all programs, by induction over the generator: every relative jump and branch offset, and the break/continue offsets of loops, land exactly on a boundary between the pieces of the emitted sequence (offsets are computed as linear forms over the unknown lengths of the sub-forms; no program is run); each form leaves exactly one value and statements are separated by one pop, on every control path; tail jumps appear only in tail position; every instruction advances or sets the program counter exactly once on success; a call evaluates the callee, then resolves it, then marshals arguments in ascending order pushing each once, then calls; variadic packing rejects too few arguments and pushes exactly one rest value. No Go append on the storage of one script array becomes the storage of another (C02-SHARE). It does not decide values, truthiness, or that a jump lands on the intended boundary among several valid ones.")
 	c.esReport("ES-J", "ES-D", "ES-T", "ES-S", "ES-MODEL")
 	c.note("emission_templates", len(c.es.templates))
 	c.checkIX("", "C02-PC")
